@@ -20,7 +20,7 @@ impl Check for C02 {
 
     fn strategy(&self, tier: Tier) -> BoxedStrategy<PairScenario> {
         let p = GenParams { max_ticks: tier.pick(150, 400), max_sends: tier.pick(5, 8), max_frags: tier.pick(3, 8), tail: true, modes: [1, 1, 1, 4], ..GenParams::default() };
-        prop_oneof![8 => scenario_strategy(&p), 1 => bulk_scenario_strategy(tier.pick(100, 300), tier.pick(40, 120), true, true)].boxed()
+        prop_oneof![7 => scenario_strategy(&p), 2 => bulk_scenario_strategy(tier.pick(100, 300), tier.pick(40, 120), true, true)].boxed()
     }
 
     fn cases(&self, tier: Tier) -> u64 {
